@@ -19,7 +19,7 @@ import (
 type CaseC11L struct {
 	Type     string    `json:"type"`
 	Others   int       `json:"others"`
-	Steps    []StepC15 `json:"steps"` // local | remote | merge, as in C15
+	Steps    []StepC15 `json:"steps"`     // local | remote | merge, as in C15
 	CancelAt int       `json:"cancel_at"` // block reads of the first Load let through before its context is cancelled
 	// Fail: instead of a cancellation, the next block read fails (an I/O error with a live context) and every
 	// other read of the first Load is served
